@@ -79,15 +79,24 @@ class Check:
         self.notes.append(text)
 
     # -------------------------------------------------------------- finishing
-    def finish(self, repo=None) -> int:
+    def finish(self, repo=None, partial_error: Optional[str] = None) -> int:
+        """partial_error: the analysis stopped at an unrecognised construct. Violations established before that point are still firm
+        (each obligation is decided on its own), so they are reported with exit 1; with none, the run is an analysis error (exit 2)."""
         from .index import AnchorError
         # floors: a rule matching fewer sites than confirmed by hand is an analysis error
         counts: Dict[str, int] = {}
         for o in self.obligations:
             counts[o.rule] = counts.get(o.rule, 0) + 1
-        for rid, fl in self.floors.items():
-            if counts.get(rid, 0) < fl:
-                raise AnchorError(f"rule {rid} matched {counts.get(rid, 0)} instance(s), floor confirmed by hand is {fl}")
+        if partial_error is None:
+            for rid, fl in self.floors.items():
+                if counts.get(rid, 0) < fl:
+                    raise AnchorError(f"rule {rid} matched {counts.get(rid, 0)} instance(s), floor confirmed by hand is {fl}")
+        elif not any((not o.ok) and self._known_entry(o) is None for o in self.obligations):
+            print(f"ANALYSIS-ERROR property={self.prop}: {partial_error}")
+            self._write_evidence(repo, [], [], error=partial_error)
+            return 2
+        else:
+            print(f"ANALYSIS-INCOMPLETE property={self.prop}: {partial_error} (violations found before this point are reported)")
         violations, known_hits = [], []
         for o in self.obligations:
             if o.ok:
@@ -107,7 +116,7 @@ class Check:
             path = self._write_replay(o)
             replay_paths.append(path)
             print(f"VIOLATION property={self.prop} replay={path}")
-        self._write_evidence(repo, violations, known_hits)
+        self._write_evidence(repo, violations, known_hits, error=partial_error)
         n = len(self.obligations)
         print(f"[{self.prop}] tier={self.tier} obligations={n} discharged={n - len(violations) - len(known_hits)} "
               f"known={len(known_hits)} violations={len(violations)} wall={time.time() - self.t0:.2f}s")
